@@ -170,7 +170,7 @@ fn gen_data_chunk(rng: &mut Rng, out: &mut Vec<u8>, tsn: u32) {
     chunk(out, 0, rng.below(8) as u8, &v);
 }
 
-fn gen_packet(rng: &mut Rng, cum: u32, cookies: &[Vec<u8>], req_sn: &mut u32, peer_tag: u32) -> Vec<u8> {
+fn gen_packet(rng: &mut Rng, cum: u32, local_tsn: u32, cookies: &[Vec<u8>], req_sn: &mut u32, peer_tag: u32) -> Vec<u8> {
     let mut p = header(0x1122_3344);
     let mut next = cum;
     for _ in 0..rng.range(1, 3) {
@@ -187,10 +187,14 @@ fn gen_packet(rng: &mut Rng, cum: u32, cookies: &[Vec<u8>], req_sn: &mut u32, pe
                 } }
             10 => { // out-of-order pair inside one packet, then the gap filler
                 gen_data_chunk(rng, &mut p, cum.wrapping_add(2)); gen_data_chunk(rng, &mut p, cum.wrapping_add(3)); gen_data_chunk(rng, &mut p, cum.wrapping_add(1)); }
-            11 | 12 => { let mut v = (rng.next() as u32).to_be_bytes().to_vec(); v.extend_from_slice(&(*rng.pick(&[0u32, 1500, 65536, 0xFFFF_FFFF])).to_be_bytes());
+            11 | 12 => { // SACK: cumulative ack relative to the endpoint's own TSNs and on the 32-bit boundaries; gap offsets on the 16-bit boundaries
+                let r = rng.next() as u32;
+                let ca = match rng.below(10) { 0 | 1 => local_tsn.wrapping_sub(1), 2 => local_tsn, 3 => local_tsn.wrapping_add(rng.below(4) as u32), 4 => local_tsn.wrapping_sub(rng.range(2, 5) as u32),
+                    5 | 6 => *rng.pick(&[0u32, 1, 0x7FFF_FFFF, 0x8000_0000, 0xFFFF_0000, 0xFFFF_FFF0, 0xFFFF_FFFE, 0xFFFF_FFFF]), 7 => 0xFFFF_FFFFu32.wrapping_sub(rng.below(12) as u32), _ => r };
+                let mut v = ca.to_be_bytes().to_vec(); v.extend_from_slice(&(*rng.pick(&[0u32, 1500, 65536, 0xFFFF_FFFF])).to_be_bytes());
                 let actual = rng.below(4) as u16; let claimed = *rng.pick(&[actual, actual, actual + 1, 0, 0xFFFF]);
                 v.extend_from_slice(&claimed.to_be_bytes()); v.extend_from_slice(&(rng.below(2) as u16).to_be_bytes());
-                for _ in 0..actual { v.extend_from_slice(&(rng.below(9) as u16).to_be_bytes()); v.extend_from_slice(&(rng.below(9) as u16).to_be_bytes()); }
+                for _ in 0..actual { for _ in 0..2 { let g = if rng.chance(1, 4) { *rng.pick(&[0u16, 1, 0x7FFF, 0x8000, 0xFFFE, 0xFFFF]) } else { rng.below(9) as u16 }; v.extend_from_slice(&g.to_be_bytes()); } }
                 if rng.chance(1, 6) { let n = v.len(); v.truncate(rng.below(n as u64 + 1) as usize); }
                 chunk(&mut p, 3, 0, &v); }
             13 | 14 => { let new = match rng.below(5) { 0 => cum, 1 => cum.wrapping_sub(1), 2 => cum.wrapping_add(0x8000_0000), _ => cum.wrapping_add(rng.range(1, 4) as u32) };
@@ -279,11 +283,11 @@ pub fn run_session(run: &mut Run, rng: &mut Rng, is_client: bool, replay: Option
             let mut req_sn = rng.next() as u32 % 1000;
             for _ in 0..rng.range(3, 14) {
                 let cum = a.cum();
-                let p = gen_packet(rng, cum, &cookies, &mut req_sn, peer_tag);
+                let p = gen_packet(rng, cum, seed_tsn, &cookies, &mut req_sn, peer_tag);
                 cookies.extend(feed(&mut a, p, &mut steps, &mut outs));
             }
             if rng.chance(1, 6) { let mut p = header(0x1122_3344); chunk(&mut p, *rng.pick(&[6u8, 8, 14]), 0, &[]); crc_fix(&mut p); feed(&mut a, p, &mut steps, &mut outs);
-                let cum = a.cum(); let p = gen_packet(rng, cum, &cookies, &mut req_sn, peer_tag); feed(&mut a, p, &mut steps, &mut outs); }
+                let cum = a.cum(); let p = gen_packet(rng, cum, seed_tsn, &cookies, &mut req_sn, peer_tag); feed(&mut a, p, &mut steps, &mut outs); }
         }
         total_len = steps.iter().map(|s| s.bytes.len() as u64).sum::<u64>();
         alloc_fail = a.alloc_fail.take(); alloc_max = a.alloc_max_x100;
